@@ -102,11 +102,24 @@ def mssm_reference(r):
 
 @st.composite
 def mssm_case(draw):
-    return {"p": draw(gen.mssm_onshell(tb=(1.0, 100.0)))}
+    c = {"p": draw(gen.mssm_onshell(tb=(1.0, 100.0)))}
+    if draw(st.integers(0, 3)) == 0:
+        # the point is evaluated on a model object that has already been used for another point (parameter scans
+        # re-use one object: set, calculate_masses(), evaluate, set again ...): "every parameter point", not "every
+        # fresh object" - anything left over from the first point (pole-mass struct, problems) must not enter
+        c["before"] = draw(gen.mssm_onshell(tb=(1.0, 100.0)))
+    return c
 
 
 def prop_mssm(case):
-    r = mssm.run_point(case["p"], dumps=("amu", "all"))
+    if case.get("before") is not None:
+        label("object-reused")
+        t = ["mssm"] + gen.mssm_set_tokens(case["before"]) + ["calc_masses"] + gen.mssm_set_tokens(case["p"]) + ["calc_masses"]
+        for d in ("amu", "all"):
+            t += ["dump", d, "-"]
+        r = vx.shared().call(*t)
+    else:
+        r = mssm.run_point(case["p"], dumps=("amu", "all"))
     if isinstance(r, (vx.Died, vx.Err)):
         return Fail("executor failure", result=repr(r))
     if mssm.threw(r):
